@@ -192,7 +192,7 @@ func (l *Listener) Accept() (net.Conn, error) {
 	if t == nil || t.Killed() {
 		return nil, ErrClosed
 	}
-	t.Park(simrt.OpNetAccept, 0, func() bool { return len(l.backlog) > 0 || l.closed }, nil)
+	t.Park(simrt.OpNetAccept, 0, l.canAccept, nil)
 	s := l.net.sim
 	s.BkLock()
 	defer s.BkUnlock()
@@ -217,3 +217,6 @@ func (l *Listener) Close() error {
 
 //go:norace
 func (l *Listener) Addr() net.Addr { return tcpAddr(l.addr) }
+
+//go:norace
+func (l *Listener) canAccept() bool { return len(l.backlog) > 0 || l.closed }
